@@ -438,10 +438,32 @@ def statusErr : Status → Option Err
   | .unresolved _ => some .key
   | .failed e => some e
 
-/-- The external bases forward chaining used (`indexer.ext_refs()`): names REF deltas of the pack wait for that
-no object of the pack has and the store does have, in the sorted order of `_walk_ref_chains`. -/
-def extUsed (ext : Bytes → Option (Nat × Bytes)) (entries : List Entry) (objs : List Obj) : List (Nat × Bytes) :=
-  (refNames entries).filterMap fun n => if objs.any (fun o => o.name == n) then none else ext n
+/-- Replay of the second phase of `_walk_all_chains`, collecting the names for which `_resolve_ext_ref` was
+consulted successfully (`self._ext_refs.append(base_sha)`): a name is used when, at its turn in the sorted
+snapshot, some REF delta is still waiting for it and the store has it — whether or not an entry of the pack
+turns out to carry the same name (a REF delta whose base is an object of the store and whose RESULT is that
+very object is such a case: the base is appended all the same, or the pack would need it to resolve it). -/
+def extNamesUsed (H : Hash) (valid : Obj → Bool) (ext : Bytes → Option (Nat × Bytes)) (fuel : Nat) :
+    List Bytes → List Entry → List Obj → List Bytes
+  | [], _, _ => []
+  | n :: ns, pending, acc =>
+    if pending.any (isRefFor n) then
+      match ext n with
+      | none => extNamesUsed H valid ext fuel ns pending acc
+      | some _ =>
+        match runJob H valid ext fuel (.ext n) pending acc with
+        | (acc', pending', none) => n :: extNamesUsed H valid ext fuel ns pending' acc'
+        | _ => [n]
+    else extNamesUsed H valid ext fuel ns pending acc
+
+/-- The external bases forward chaining used (`indexer.ext_refs()`), in the sorted order of `_walk_ref_chains`;
+`extend_pack` appends every one of them. -/
+def extUsed (H : Hash) (ext : Bytes → Option (Nat × Bytes)) (entries : List Entry) : List (Nat × Bytes) :=
+  match runJobs H (fun _ => true) ext entries.length ((entries.filter isFull).map Job.full)
+      (entries.filter fun e => !isFull e) [] with
+  | (acc, pending, none) =>
+    (extNamesUsed H (fun _ => true) ext entries.length (refNames pending) pending acc).filterMap ext
+  | _ => []
 
 /-- `pack_object_header(type, size)`: the inverse of `objHeader`. -/
 def encObjHdrAux : Nat → Nat → Nat → Bytes
@@ -514,7 +536,7 @@ def diskFirstPass (c : Cfg) (inflate : Inflate) (H : Hash) (p : Path) (s : Store
     | .ok (entries, _) =>
       let out := resolveAll H (fun _ => true) s.lookup entries
       match out.status with
-      | .done => .ok (some (file, out.objs, extUsed s.lookup entries out.objs))
+      | .done => .ok (some (file, out.objs, extUsed H s.lookup entries))
       | st => .error ((statusErr st).getD .other)
 
 /-- `DiskObjectStore.add_thin_pack` / `add_pack().commit`: framing, trailer (thin: always; commit: since the
